@@ -186,6 +186,9 @@ def _rand_genome(rng, n):
 
 def _rand_types(rng, depth):
     r = rng.random()
+    if r < 0.12:
+        # the library's own type names (asked for by str and by enum member, see check_child)
+        return [rng.choice(["chromosome", "sequence_chunk", "a"]) for _ in range(depth + 1)]
     if r < 0.65:
         return [f"t{i}" for i in range(depth + 1)]
     pool = ["a", "b", "c"] if r < 0.85 else ["a", "b", None]
@@ -455,7 +458,12 @@ def check_child(ctx, H, O, case, d, xb, xs, refusals=True):
         ctx.check("lift.ancestor-search", e is None and e2 is None and h is True and getattr(a, "id", None) == f"L{j}" and a.sequence_type == t,
                   key=("closest-of-type", f"up{d - j}", O.mode), type=t, target=j, got=repr(a)[:300], has=h, exc=repr(e or e2)[:200] if (e or e2) else None, **det)
         wantP, wants = H.lift(PX, xs, d, j)
-        r, e = ctx.call(X.lift_over_to_first_ancestor_of_type, t)
+        targ = t
+        if t in ("chromosome", "sequence_chunk") and (d + j) % 2:
+            from inscripta.biocantor.parent import SequenceType
+
+            targ = SequenceType(t)      # the enum member instead of its string value: the same type
+        r, e = ctx.call(X.lift_over_to_first_ancestor_of_type, targ)
         tag = (f"up{d - j}", O.mode, "overlapping" if ov else "plain")
         if _cmp(ctx, "lift.by-type", r, e, wantP, wants, ov, tag, target=j, type=t, **det):
             ctx.check("lift.by-type", _parent_is(r, f"L{j}", t), key=("result-parent", f"up{d - j}", O.mode), target=j, type=t,
